@@ -1,2 +1,22 @@
 //! Verification hooks (compiled only with `--cfg quinn_rs_quinn_verif`).
+//!
+//! Read-only probes of the async layer's wake-up bookkeeping for the C18 simulator
+//! (`/verif/harness/src/asyncsim.rs`): which streams have a registered reader / writer waker,
+//! which have a `stopped` notifier, whether the driver left its waker, `ref_count`.
 #![allow(missing_docs, dead_code, unused_imports, unreachable_pub, clippy::all)]
+use std::sync::Weak;
+
+use crate::connection::ConnectionInner;
+
+/// Weak reference to a connection's shared state: observing it neither keeps the connection
+/// alive for the purposes of `ref_count` nor takes part in any wake-up.
+#[derive(Debug, Clone)]
+pub struct ConnProbe(pub(crate) Weak<ConnectionInner>);
+
+impl ConnProbe {
+    /// `None` once every handle and the driver are gone. Layout: see
+    /// `ConnectionInner::verif_snapshot`.
+    pub fn snapshot(&self) -> Option<Vec<i128>> {
+        self.0.upgrade().map(|c| c.verif_snapshot())
+    }
+}
